@@ -111,12 +111,12 @@ def peval(e: ast.AST, env: dict[str, T.Any]) -> T.Any:
             return fn(a, b)
         except Exception:  # noqa: BLE001
             return UNKNOWN
-    if isinstance(e, ast.Call) and isinstance(e.func, ast.Name) and e.func.id in ("len", "min", "max", "bool", "int", "abs") and not e.keywords:
+    if isinstance(e, ast.Call) and isinstance(e.func, ast.Name) and e.func.id in ("len", "min", "max", "bool", "int", "abs", "list", "tuple", "sorted") and not e.keywords:
         args = [peval(a, env) for a in e.args]
         if any(a is UNKNOWN or isinstance(a, Sym) for a in args):
             return UNKNOWN
         try:
-            return {"len": len, "min": min, "max": max, "bool": bool, "int": int, "abs": abs}[e.func.id](*args)
+            return {"len": len, "min": min, "max": max, "bool": bool, "int": int, "abs": abs, "list": list, "tuple": tuple, "sorted": sorted}[e.func.id](*args)
         except Exception:  # noqa: BLE001
             return UNKNOWN
     if isinstance(e, (ast.ListComp, ast.SetComp, ast.GeneratorExp)) and len(e.generators) == 1 and not e.generators[0].is_async:
@@ -344,7 +344,12 @@ def run_to(stmts: list[ast.stmt], target: ast.AST, env: dict[str, T.Any]) -> str
                 forget(st)
         elif isinstance(st, ast.AugAssign) and isinstance(st.target, ast.Name):
             cur, add = env.get(st.target.id, UNKNOWN), peval(st.value, env)
-            env[st.target.id] = cur + list(add) if isinstance(cur, list) and isinstance(add, (list, tuple)) and isinstance(st.op, ast.Add) else UNKNOWN
+            if isinstance(cur, list) and isinstance(add, (list, tuple)) and isinstance(st.op, ast.Add):
+                env[st.target.id] = cur + list(add)
+            elif isinstance(st.op, ast.Add) and type(cur) is type(add) and isinstance(cur, (bytes, str, int)) and not isinstance(cur, bool):
+                env[st.target.id] = cur + add
+            else:
+                env[st.target.id] = UNKNOWN
         elif isinstance(st, ast.Expr) and isinstance(st.value, ast.Call) and isinstance(st.value.func, ast.Attribute) and isinstance(st.value.func.value, ast.Name) \
                 and st.value.func.attr in ("append", "extend") and len(st.value.args) == 1:
             nm = st.value.func.value.id
